@@ -203,6 +203,17 @@ def run_sigs(desc):
     n = eg.ref(cid).n
     wi = eg.Issuer(cid, 1 + mat.below(n - 1))
     weak = [wi.sig(k, mat.bytes(32)) for k in eg.nonces_msb(mat, n, 64, 9 if n.bit_length() > 256 else 7)]
+    if desc['weak'] >= 2:
+      # neighbours whose ISSUER KEY is weak (small private key / weak curve / invalid point), uniform nonces
+      for j in range(2):
+        kc = [eg.C.CURVE_SECP224R1, eg.C.CURVE_SECP192R1, eg.C.CURVE_BRAINPOOLP256R1][(desc['weak'] + j) % 3]
+        kn = eg.ref(kc).n
+        ki = eg.Issuer(kc, 1 + mat.below(2**20) if j == 0 else 1 + mat.below(kn - 1))
+        for k in eg.nonces_uniform(mat, kn, 2):
+          sg = ki.sig(k, mat.bytes(32))
+          if j == 1 and kc != eg.C.CURVE_SECP192R1:
+            sg.issuer_key_info.y = art.i2b((ki.pub[1] + 1) % eg.ref(kc).p)
+          weak.append(sg)
     batch = mat.shuffle([(_copy(s), i) for i, s in enumerate(sigs)] + [(w, None) for w in weak])
     libcall(paranoid.CheckAllECDSASigs, [a for a, _ in batch])
     for a, i in batch:
@@ -220,7 +231,7 @@ def strat_sigs(tier):
                      st.sampled_from([1, 2, 3, 6, 12, 30] if tier == 'quick' else [1, 2, 6, 24, 48, 60])).map(list)
   return st.fixed_dictionaries({
       'm': material, 'issuers': st.lists(issuer, min_size=1, max_size=3 if tier == 'quick' else 4),
-      'shuffle': st.booleans(), 'weak': st.sampled_from([0, 0, 1, 2, 3])})
+      'shuffle': st.booleans(), 'weak': st.sampled_from([0, 0, 1, 2, 3, 4, 5])})
 
 
 # ---------------------------------------------------------------- EC with the library's default max_diff (thorough only)
@@ -250,5 +261,5 @@ ARMS = [
     Arm('rsa', run_rsa, strategy=strat_rsa, quick=320, thorough=2500, budget=(170, 2400), weight=3),
     Arm('ec', run_ec, strategy=strat_ec, quick=32, thorough=800, budget=(170, 2400), weight=2),
     Arm('ec_default_maxdiff', run_ec_default, enumerate=enum_ec_default, budget=(10, 2400), weight=9),
-    Arm('signatures', run_sigs, strategy=strat_sigs, quick=64, thorough=1500, budget=(170, 2400), weight=2),
+    Arm('signatures', run_sigs, strategy=strat_sigs, quick=48, thorough=1500, budget=(170, 2400), weight=2),
 ]
